@@ -307,6 +307,15 @@ func (r *Reader) Value(t reflect.Type, path string) {
 		return
 	case tBitfield:
 		off := r.Pos
+		if remain := len(r.Data) - r.Pos; remain > 0 && remain < types.AvailBitfieldBytes {
+			// Bitfield.Decode uses Read and ignores the count: a short read is accepted
+			if r.tol() {
+				r.Take(remain, path)
+				return
+			}
+			panic(rejectPanic{&Reject{Reason: RTruncated, Off: off, Path: path, InBlob: true,
+				Detail: fmt.Sprintf("bitfield of %d octets, %d remain", types.AvailBitfieldBytes, remain)}})
+		}
 		b := r.Take(types.AvailBitfieldBytes, path)
 		for i := types.CoresCount; i < 8*len(b); i++ {
 			if b[i/8]&(1<<uint(i%8)) != 0 && !r.tol() {
